@@ -9,13 +9,14 @@ from ..monitor import TracedBytesIO, PoisonedIter, poison
 PROP = 'C09'
 LEVEL = 'exploration'
 RULE = ('one logical dynamic image (tags incl. MIPS/AArch64/Solaris-specific sets, duplicates, entries '
-        'after DT_NULL, NEEDED/SONAME/RPATH/RUNPATH strings incl. non-ASCII, dynamic symbols, SysV and/or '
+        'after DT_NULL, NEEDED/SONAME/RPATH/RUNPATH/FILTER/AUXILIARY/AUDIT/DEPAUDIT/CONFIG strings incl. non-ASCII, dynamic symbols, SysV and/or '
         'GNU hash (occupied, empty in both spellings), REL/RELA/RELR/JMPREL tables, 1-3 PT_LOAD segments '
         'with address != offset) emitted three ways: with section headers, with e_shoff/e_shnum/'
         'e_shstrndx zeroed, and with a .dynamic section at another offset than PT_DYNAMIC (forcing the '
         'DT_STRTAB path); ground truth for the tag sequence and strings, and equivalence of the section '
         'view and every segment view for tags, strings, symbols, relocation tables, table offsets and '
-        'the recovered symbol count. Second workload: every corpus file with a dynamic section is '
+        'the recovered symbol count; every third image is also written to disk, read by path, rewritten in place with other '
+        'strings at the same offsets, read again in the same process and restored. Second workload: every corpus file with a dynamic section is '
         're-opened with its section-header fields zeroed and the views compared. distinct = (class, '
         'order, machine class, hash kinds, tables present, container).')
 ASSUMPTIONS = [
